@@ -72,15 +72,18 @@ DIMS = OrderedDict([
     ("mode", ["pressure", "none", "volume"]),
     ("n", [101, 11, 401]),
     ("prange", ["r0", "r1"]),
-    ("sample", [None, 2, 5]),
+    # stride of --delta-p-sample in units of DELTA_P; n - 1 = 100, 10, 400 is divisible by 2, 5 (and 4 for 100, 400), never by 3 or 7
+    ("sample", [None, 2, 5, 3, 4, 7]),
     ("table", ["ortho9", "none", "ortho9+s", "cubic+s", "trigonal7+s", "tetragonal7+s", "tetragonal6+s", "trigonal6+s", "hexagonal+s",
                "monoclinic+s", "triclinic+s"]),
     # columns of the table: the independent constants only, or every non-vanishing constant (symmetry-related ones listed too)
     ("compset", ["minimal", "nonzero"]),
     ("cellmass", [None, CELLMASS]),
     ("data", ["bm3", "quad", "noise"]),
-    ("nv", [6, 4, 12]),
-    ("tabvols", ["same", "other"]),
+    # number of volumes in INPUT01; 3 = the quadratic fit is exactly determined (interpolation), 4 and 5 just above
+    ("nv", [6, 4, 12, 3, 5]),
+    # volumes of the static table: the same set as INPUT01, or an own set of 5 ("other"), 3 or 4 volumes
+    ("tabvols", ["same", "other", 3, 4]),
     # presentation of the same data: order of the volume blocks of INPUT01, of the rows of INPUT02; --v-ratio
     ("order01", ["desc", "asc", "smallest-first", "largest-last", "middle-first"]),
     ("order02", ["desc", "asc", "middle-first"]),
@@ -124,6 +127,7 @@ def reorder(ds, order):
     out["energies"] = ds["energies"][perm]
     out["freqs"] = ds["freqs"][perm]
     out["table"] = {p: numpy.asarray(v)[perm] for p, v in ds["table"].items()}
+    out["svols"] = out["vols"]           # the static table is written on the same (permuted) volumes
     if ds.get("lattice") is not None:
         out["lattice"] = ds["lattice"][perm]
     return out
@@ -159,18 +163,37 @@ def table_of(data, ds):
     return {p: full[p] for p in ds["supplied"]}
 
 
+def make_volumes(spec, nv):
+    """synth data set on nv volumes; 3 volumes = first, middle and last of synth's 5-volume set (318, 281, 240)"""
+    if nv != 3:
+        return synth.make(dict(spec, nv=nv))
+    ds = synth.make(dict(spec, nv=5))
+    rows = [0, 2, 4]
+    out = dict(ds)
+    out["vols"] = ds["vols"][rows]
+    out["energies"] = ds["energies"][rows]
+    out["freqs"] = ds["freqs"][rows]
+    out["table"] = {p: numpy.asarray(v)[rows] for p, v in ds["table"].items()}
+    out["svols"] = out["vols"]
+    if ds.get("lattice") is not None:
+        out["lattice"] = ds["lattice"][rows]
+    out["vref"] = float(out["vols"][1])
+    return out
+
+
 def write_inputs(d, case):
     """writes input01 (and elast.dat); returns the file arguments of the command line"""
     system, sarg = TABLES[case["table"]]
     spec = dict(nv=case["nv"], nq=1, na=1, system=system or "orthorhombic", compset=case.get("compset") or "minimal", static="generic",
                 pve=case.get("pve") or "f")
-    ds = synth.make(spec)
+    ds = make_volumes(spec, case["nv"])
     ds["energies"] = energies_of(case["data"], ds["vols"])
     with open(os.path.join(d, "input01"), "w") as fp:
         fp.write(synth.phonon_file_text(reorder(ds, case.get("order01"))))
     args = ["run-static", "input01"]
     if system is not None:
-        dt = ds if case.get("tabvols", "same") == "same" else synth.make(dict(spec, nv=5))
+        tv = case.get("tabvols", "same")
+        dt = ds if tv == "same" else make_volumes(spec, 5 if tv == "other" else int(tv))
         dt["table"] = table_of(case["data"], dt)
         with open(os.path.join(d, "elast.dat"), "w") as fp:
             fp.write(synth.static_file_text(reorder(dt, case.get("order02"))))
@@ -515,7 +538,7 @@ def request_cases(quick):
     for pmin, dp, n in REQUESTS:
         for table in (("none", "ortho9") if quick else ("none", "ortho9", "cubic+s")):
             for order in (("desc", "asc") if quick else ORDERS):
-                for sample in ((None,) if quick else (None, 2)):
+                for sample in ((None, 3) if quick and table == "none" and order == "desc" else (None,) if quick else (None, 2, 3, 7)):
                     out.append(dict(base, request=[pmin, dp], n=n, table=table, order01=order, order02="desc", sample=sample))
     return out
 
@@ -544,18 +567,18 @@ def anchored_cases(quick):
 
 def explore(ctx):
     ctx.rule = ("mode A: deviation lattice over mode (3) x -n (11,101,401) x pressure range (2, inside the fitted range; DELTA_P = span/(n-1)) x "
-                "--delta-p-sample (absent, 2x, 5x DELTA_P) x static table (absent, orthotropic 9, orthotropic 9 + -s, cubic 3 + -s cubic, "
+                "--delta-p-sample (absent, 2x, 5x, 3x, 4x, 7x DELTA_P: strides that do and do not divide n-1; rows must sit at P_MIN + j*stride*DELTA_P) x static table (absent, orthotropic 9, orthotropic 9 + -s, cubic 3 + -s cubic, "
                 "trigonal 7 + -s trigonal7, and likewise tetragonal7, tetragonal6, trigonal6, hexagonal, monoclinic, triclinic: every packaged system, with non-zero "
                 "distinguishing constants c16 / c14,c15 / c15,c25,c35,c46; expected fill from the Laue-class invariants of laue_ref) x table columns (independent "
                 "constants only, every non-vanishing constant) x --cellmass (absent, given) x data (exactly quadratic in f, BM3 with B0'=5.5, BM3 + deterministic noise; "
-                "the table likewise) x number of volumes (6,4,12) x table volumes (same as the energies, a different 5-volume set) x presentation: "
+                "the table likewise) x number of volumes of INPUT01 (6,4,12,3,5; 3 = fit exactly determined) x table volumes (same as the energies, an own set of 5, 3 or 4 volumes) x presentation: "
                 "order of the volume blocks of INPUT01 (descending, ascending, smallest first, largest last, middle first) x row order of INPUT02 "
                 "(descending, ascending, middle first) x --v-ratio (default, 1.05, 1.5) x number format of the P= V= E= headers of INPUT01 (plain decimals, "
                 "%E exponent notation, explicit + sign); every configuration is one in-process `cij run-static` whose "
                 "stdout table is compared cell by cell with static_ref (order-independent least squares; mode-none rows in the file's order). "
                 "quick: <= 2 deviations from the default; thorough: <= 3 deviations over all 14 dimensions + the full product of the 9 data/option "
                 "dimensions (7 of the 11 tables) in the default presentation + the full product of the 4 presentation dimensions x mode x n (101, 11) x table (3) x data "
-                "+ the full product table (11) x table columns x mode x data x table volumes x INPUT02 order. "
+                "+ the full product volume counts (5) x table volume counts (4) x strides (6) x n x mode x table (2) x data + the full product table (11) x table columns x mode x data x table volumes x INPUT02 order. "
                 "Plus explicit pressure requests P_MIN in {0,-5,0.1} x DELTA_P in {0.1,0.3,0.7} x n in {30,53,61,101} (inside the fitted range) x table x "
                 "INPUT01 order; range-edge requests: last pressure = top - bound - c DELTA_P with P_MIN in {-5,0,10}, and first pressure = bottom + bound + c DELTA_P "
                 "with last pressure in {-5,0,10}, c in {0.35,0.5,0.8,1.5,5}, n in {41,101,201,401}, top/bottom = the reference's P at the ends of the n-point "
@@ -564,7 +587,7 @@ def explore(ctx):
         "pressure ranges lie inside the pressures spanned by the input volumes (asserted per case against the reference fit); range-edge requests lie inside "
         "the fitted range on the n-point grid shrunk at either end by the reference's end-node bound h/2 sup|F''| (the numerical end pressure of a one-sided "
         "quotient lies within that bound of the analytic one); requests that leave the fitted range are not asserted",
-        "--delta-p-sample is an integer multiple (1, 2, 5) of --delta-p; other ratios are outside the statement",
+        "--delta-p-sample is an integer multiple (1, 2, 3, 4, 5, 7) of --delta-p, whether or not it divides n-1; non-integer ratios are outside the statement",
         "volume-mode grid = n equidistant volumes from Vmin/ratio to Vmax*ratio (the documented meaning of --v-ratio), either order",
         "the fit does not depend on the order in which volumes are listed in either input file; mode none reports the rows in INPUT01's order",
         "tolerances: printed half unit + 1e-7 (unit-bearing) / 1e-9 (unit-free) relative + Taylor-remainder bounds of a difference quotient on the n-point grid "
@@ -581,6 +604,13 @@ def explore(ctx):
         _, res = ctx.run_lattice(MOD, "run_case", dims, 3, part="lattice<=3", canon=canon, chunksize=2)
         allres += res
         core = OrderedDict((k, (list(v) if k not in PRESENTATION + ("compset",) else [v[0]])) for k, v in DIMS.items())
+        core["nv"], core["sample"], core["tabvols"] = [6, 4, 12], [None, 2, 5], ["same", "other"]
+        counts = OrderedDict((k, [v[0]]) for k, v in DIMS.items())
+        for k in ("nv", "tabvols", "sample", "n", "mode", "data"):
+            counts[k] = list(DIMS[k])
+        counts["table"] = ["ortho9", "none"]
+        _, res = ctx.run_lattice(MOD, "run_case", counts, None, part="full-product:counts-and-strides", canon=canon, chunksize=4)
+        allres += res
         core["table"] = [t for t in DIMS["table"] if t in ("ortho9", "none", "ortho9+s", "cubic+s", "trigonal7+s", "tetragonal7+s", "monoclinic+s")]
         _, res = ctx.run_lattice(MOD, "run_case", core, None, part="full-product:data-and-options", canon=canon, chunksize=4)
         allres += res
@@ -622,10 +652,10 @@ def selftest():
     from mc.ref import static_ref as S
     ok = S.selftest()
     # the data sets are what their names say: `quad` is exactly quadratic in f, `bm3` and `noise` are not
-    for nv in (4, 6, 12):
-        vols = numpy.array(synth.VOLUME_SETS[nv])
+    for nv in (3, 4, 5, 6, 12):
+        vols = numpy.array(synth.VOLUME_SETS[nv]) if nv != 3 else numpy.array(synth.VOLUME_SETS[5])[[0, 2, 4]]
         ok &= S.StrainFit(vols, energies_of("quad", vols)).residual() < 1e-10
-        ok &= S.StrainFit(vols, energies_of("bm3", vols)).residual() > 1e-6
+        ok &= (S.StrainFit(vols, energies_of("bm3", vols)).residual() > 1e-6) if nv > 3 else (S.StrainFit(vols, energies_of("noise", vols)).residual() < 1e-10)
         if nv > 4:
             ok &= S.StrainFit(vols, energies_of("noise", vols)).residual() > 1e-4
         # requested pressure ranges inside the fitted range of every data set
